@@ -363,6 +363,8 @@ pub fn run(rep: &mut StageReport, tier: &str, seed: u64) {
     let mut prompt_timeouts = 0u64;
     let mut prompt_calls = 0u64;
     let mut by_mode: HashMap<&'static str, u64> = HashMap::new();
+    let mut clones_result: Option<(u64, Vec<String>, Vec<String>)> = None;
+    let mut clones_inconclusive: Option<String> = None;
     let results = rt.block_on(async {
         let server = match start_server(&certs) {
             Ok(s) => s,
@@ -375,6 +377,17 @@ pub fn run(rep: &mut StageReport, tier: &str, seed: u64) {
                 Ok(x) => x,
                 Err(_) => Err("watchdog: scenario did not finish within 600 s".into()),
             }));
+        }
+        // clones that each re-established their own stream after a connection loss still share the request-id
+        // counter and the pending-call map: concurrent calls must still get their own replies
+        {
+            let bo = selium::keep_alive::BackoffStrategy::constant().with_max_attempts(3).with_step(Duration::from_millis(10));
+            let burst = if thorough { 40 } else { 10 };
+            match tokio::time::timeout(Duration::from_secs(400), super::c12::requestor_clones_after_recovery(server.addr, &certs, bo, 1, 4, burst, 900)).await {
+                Ok(Ok((ok, wrong, failed))) => clones_result = Some((ok, wrong, failed)),
+                Ok(Err(e)) => clones_inconclusive = Some(e),
+                Err(_) => clones_inconclusive = Some("watchdog: clones scenario did not finish in 400 s".into()),
+            }
         }
         for g in 0..n_gen_scenarios {
             let tmo = if g % 2 == 0 { 300 } else { 500 };
@@ -481,6 +494,24 @@ pub fn run(rep: &mut StageReport, tier: &str, seed: u64) {
         }
         if let Some(sc) = sc {
             rep.sample(json!({"scenario": {"connections": sc.n_connections, "streams_per_connection": sc.streams_per_connection, "clones_per_stream": sc.clones_per_stream, "timeout_ms": sc.timeout_ms, "compression": sc.compression}, "history_excerpt": sample_hist}));
+        }
+    }
+    if let Some(why) = clones_inconclusive {
+        rep.inconclusive(&why);
+    }
+    if let Some((ok, wrong, failed)) = clones_result {
+        rep.evaluations += ok + wrong.len() as u64 + failed.len() as u64;
+        for i in 0..ok {
+            rep.distinct.insert(crate::common::mix(0xC104E5, i));
+        }
+        rep.count("calls_on_recovered_clones/own_reply", ok);
+        rep.count("calls_on_recovered_clones/failed(counted: recovery is C12's business)", failed.len() as u64);
+        if let Some(w) = wrong.first() {
+            rep.violation(Violation {
+                signature: "C04/reqrep-client/wrong-reply/recovered-clones".into(),
+                detail: format!("{} calls on requestor clones that had each re-established their stream returned Ok with another call's reply, e.g. {}", wrong.len(), w),
+                replay: String::new(),
+            });
         }
     }
     for p in repo_panics_since(mark) {
